@@ -175,6 +175,27 @@ class InstRec(System):
         return new
 
 
+OWN_ATTRS = {"active": False, "enabled": False, "paused": True, "running": False, "done": True, "complete": True, "removed": True,
+             "skip": True, "dirty": True, "pooled": False, "registered": False, "index": 0, "slot": -1, "order": None, "position": None,
+             "key": None, "name": "", "state": 0, "status": None, "cache": None, "owner": None, "parent": None, "next": None,
+             "prev": None, "ticket": None, "seq": -1, "count": 0, "last_run": None, "next_run": None, "tag": None, "env": None,
+             "agents": None, "systems": None, "timestep": -1, "records": None, "lock": None, "queue": None}
+
+
+class OwnAttrRec(Rec):
+    """A recording system that keeps state of its own under everyday attribute names (active, paused, index, owner ...), with
+    falsy / odd values, some on the instance and some on the class: a user's attributes are the user's business."""
+    pooled = False
+    skip = True
+    slot = -1
+
+    def __init__(self, spec, model, world):
+        super().__init__(spec, model, world)
+        for k_, v_ in OWN_ATTRS.items():
+            if k_ not in ("pooled", "skip", "slot"):
+                setattr(self, k_, v_)
+
+
 class LenRec(Rec):
     """A falsy system: what a System subclass that defines __len__ (over its own records, say) is while it holds nothing.
     Presence in the scheduler must never be decided by an object's truth value."""
@@ -242,6 +263,8 @@ def gen_flavour(rng):
         return {"value_eq": False, "syskind": rng.choice(["own_order", "mixin_execute", "instance_execute"]), "returns": None}
     if r < 0.56:
         return {"value_eq": False, "dunders": gen_dunders(rng), "returns": ret}
+    if r < 0.64:
+        return {"value_eq": False, "syskind": "own_attributes", "returns": ret}
     return {"value_eq": False, "returns": ret}
 
 
@@ -260,7 +283,8 @@ def rec_class(sc, ctx=None):
     if sc.get("syskind"):
         if ctx is not None:
             ctx.probe("systems_that_are_bundled_collectors" if sc["syskind"] in ("file", "collector") else "systems_of_kind_" + sc["syskind"])
-        return {"file": RecFileSys, "collector": RecCollectorSys, "own_order": LtRec, "mixin_execute": MixRec, "instance_execute": InstRec}[sc["syskind"]]
+        return {"file": RecFileSys, "collector": RecCollectorSys, "own_order": LtRec, "mixin_execute": MixRec, "instance_execute": InstRec,
+                "own_attributes": OwnAttrRec}[sc["syskind"]]
     if sc.get("dunders"):
         if ctx is not None:
             ctx.probe("systems_with_special_methods_of_their_own")
